@@ -6,7 +6,7 @@ use crate::gen;
 use crate::json::{hex, J};
 use crate::refcodec::{flip_bit, lcp, Id, Krpc, Query, Want};
 use crate::runner::Report;
-use crate::simnet::{run_sim, sleep_us, MIN, SEC};
+use crate::simnet::{run_sim, sleep_us, MIN, MS, SEC};
 use crate::tabledrv::{dump, St};
 use crate::wiremon;
 use rand::seq::SliceRandom;
@@ -121,11 +121,37 @@ pub fn scenario(ctx: &Ctx, idx: u64) -> Report {
         report.add("wire_questionable_nodes_in_tables", n_bad_or_stale as u64);
         let registry_set = stable.clone();
 
+        // ---- in half of the runs peers are stored under one info-hash first: a get_peers answer for
+        // it carries many values next to its node list (the list must not suffer)
+        let hot: Option<Id> = if rng.gen_bool(0.5) {
+            let ih = gen::rand_id(&mut rng);
+            let peer_v6 = rng.gen_bool(0.5);
+            let k = *[10usize, 48, 60, 100, 130, 200].choose(&mut rng).unwrap();
+            let c0 = bed.client(peer_v6, 5);
+            let tok = bed
+                .ask(c0, &Krpc::query(b"tk", gen::rand_id(&mut rng), Query::GetPeers { info_hash: ih, want: None }))
+                .await
+                .first()
+                .and_then(|k| k.as_reply().and_then(|r| r.token.clone()))
+                .unwrap_or_default();
+            for p in 0..k {
+                let src = bed.client(peer_v6, 5);
+                let q = Krpc::query(gen::tid(&mut rng), gen::rand_id(&mut rng), Query::AnnouncePeer { info_hash: ih, port: Some(1 + p as u16), token: tok.clone() });
+                bed.inject(src, q.encode());
+            }
+            sleep_us(bed.client_latency + 2 * MS).await;
+            report.count("wire_tables_with_peers_stored");
+            Some(ih)
+        } else {
+            None
+        };
+
         // ---- replies for many targets and want variants
         let mut live: Vec<Handle> = registry_set.iter().copied().collect();
         let n_targets = ctx.tier.pick(150, 200);
         for i in 0..n_targets {
             let (target, class) = match i % 5 {
+                0 if hot.is_some() && i % 2 == 0 => (hot.unwrap(), "stored-info-hash"),
                 0 => (bed.id, "local"),
                 1 => (flip_bit(&bed.id, rng.gen_range(0..160)), "bitflip"),
                 2 => (gen::rand_id(&mut rng), "random"),
@@ -136,7 +162,7 @@ pub fn scenario(ctx: &Ctx, idx: u64) -> Report {
                 }
             };
             let want = gen::want(&mut rng);
-            let use_get_peers = rng.gen_bool(0.4);
+            let use_get_peers = rng.gen_bool(0.4) || (class == "stored-info-hash" && rng.gen_bool(0.7));
             let src_v6 = rng.gen_bool(0.3);
             let src = bed.client(src_v6, 2);
             let q = Krpc::query(
